@@ -1,2 +1,259 @@
-(* C13 - placeholder while the correspondence stream is being brought up; theorems follow. *)
-From RC Require Import Model.Ksp Model.KspSpec Model.KspRun.
+(* C13 - when the destination is reachable a k-shortest-paths query returns between one and k routes: the first is a
+   least-cost route, every route is a valid loop-free origin-to-destination route with correctly accumulated state, no
+   two have the same edge sequence, and no two are more similar than the configured threshold.  The default 'accept
+   all' setting rejects no alternative for similarity, so it returns at least as many routes as any similarity
+   threshold does for the same query, and the algorithm always terminates without turning an answerable query into
+   an error because one alternative search failed.
+
+   Single-via (Ksp.sv_run): Section C13 states every clause for every graph, cost type, k, termination criterion,
+   similarity function, every pop of the intersection queue that removes one entry, and every underlying search that
+   returns a tree satisfying the C01 tree invariant; c13_model* discharge all hypotheses for the executable model of
+   the correspondence stream.  Yen (Ksp.yens_run, faithful): the known-finding class is K = (k >= 2); the theorems
+   are stated outside K and the witnesses inside K are proved on the faithful model.
+
+   This file contains only statements: each theorem is closed by [exact] of a lemma proved in Proofs/. *)
+From Coq Require Import List Arith Bool String QArith Permutation.
+From stdpp Require Import gmap.
+From RC Require Import Base.Res Base.Num Model.Search Model.SearchSpec Model.SearchRun Model.Ksp Model.KspSpec Model.KspRun
+  Proofs.SearchInv Proofs.KspBase Proofs.Ksp Proofs.KspDominates Proofs.KspSim Proofs.KspCheck Proofs.KspConcrete
+  Proofs.KspModel Proofs.KspYen.
+Import ListNotations.
+Import Search SearchSpec Ksp KspSpec.
+
+Section C13.
+  Context {C St : Type}.
+  Variable cadd : C -> C -> C.                       (* Cost addition *)
+  Variable cfloor : C -> C.                          (* the positive floor inside EdgeTraversal::total_cost *)
+  Variable g : graph.
+  Variable traverse_fwd : nat -> option nat -> St -> res (C * C * St).     (* EdgeTraversal::forward_traversal *)
+  Variable init_state : res St.
+  Variable search : dir -> nat -> nat -> res (sresult C St).              (* underlying.run_vertex_oriented *)
+  Variable sim : list nat -> list nat -> res bool.                        (* similarity.test_similarity *)
+  Variable pick : list (nat * C) -> option (nat * C * list (nat * C)).    (* intersection_queue.pop *)
+  Hypothesis pick_perm : forall q v c q', pick q = Some (v, c, q') -> Permutation q ((v, c) :: q').
+  Hypothesis pick_none : forall q, pick q = None -> q = [].
+  Hypothesis Hsearch : forall d a b r, search d a b = Ok r ->
+    exists tree route, r_trees r = [tree] /\ r_routes r = [route] /\ TreeInv g d a tree
+                       /\ vertex_oriented_route a b tree = Ok route.
+  Notation run := (sv_run cadd cfloor g traverse_fwd init_state search sim pick).
+  Notation ids := (@ids C St).
+
+  (* between one and k routes *)
+  Theorem c13_sv_count : forall k term s t r, 1 <= k -> run k term s t = Ok r -> 1 <= length (r_routes r) <= k.
+  Proof. exact (sv_count cadd cfloor g traverse_fwd init_state search sim pick pick_perm Hsearch). Qed.
+
+  (* the first route is the underlying forward search's own (least-cost, C02) route *)
+  Theorem c13_sv_first_is_best : forall k term s t r, 1 <= k -> run k term s t = Ok r ->
+    exists rf route, search Forward s t = Ok rf /\ r_routes rf = [route] /\ nth_error (r_routes r) 0 = Some route.
+  Proof. exact (sv_first_is_best cadd cfloor g traverse_fwd init_state search sim pick pick_perm Hsearch). Qed.
+
+  (* every route is a non-empty chained walk from the origin to the destination *)
+  Theorem c13_sv_routes_valid : forall k term s t r, s <> t -> run k term s t = Ok r ->
+    forall x, In x (r_routes r) -> ids x <> [] /\ walk g Forward s (ids x) t.
+  Proof. exact (sv_routes_valid cadd cfloor g traverse_fwd init_state search sim pick pick_perm Hsearch). Qed.
+
+  (* accumulated state: an alternative is a forward-tree path followed by edges re-traversed, one by one, from
+     that path's last edge and final state *)
+  Theorem c13_sv_routes_state : forall k term s t r, run k term s t = Ok r ->
+    forall i x, nth_error (r_routes r) (S i) = Some x ->
+    exists v fr rr rf tf, x = fr ++ rr /\ search Forward s t = Ok rf /\ r_trees rf = [tf]
+                    /\ vertex_oriented_route s v tf = Ok fr
+                    /\ (forall le, last fr = Some le -> chained traverse_fwd (Some (et_edge le)) (et_state le) rr).
+  Proof. exact (sv_routes_state cadd cfloor g traverse_fwd init_state search sim pick pick_perm Hsearch). Qed.
+
+  (* loop-free as the code defines it: the tails of the route's edges are pairwise different vertices ... *)
+  Theorem c13_sv_loop_free : forall k term s t r, run k term s t = Ok r ->
+    forall x, In x (r_routes r) -> List.NoDup (srcs g (ids x)).
+  Proof. exact (sv_loop_free cadd cfloor g traverse_fwd init_state search sim pick pick_perm Hsearch). Qed.
+
+  (* ... and no vertex at all is visited twice when the forward search did not expand the destination *)
+  Theorem c13_sv_loop_free_full : forall k term s t r, s <> t -> run k term s t = Ok r ->
+    (forall rf tf v b, search Forward s t = Ok rf -> r_trees rf = [tf] -> tf !! v = Some b -> b_term b <> t) ->
+    forall x, In x (r_routes r) -> List.NoDup (s :: dsts g (ids x)).
+  Proof. exact (sv_loop_free_full cadd cfloor g traverse_fwd init_state search sim pick pick_perm Hsearch). Qed.
+
+  (* no two routes have the same edge sequence *)
+  Theorem c13_sv_pairwise_distinct : forall k term s t r, run k term s t = Ok r ->
+    forall i j a b, i <> j -> nth_error (r_routes r) i = Some a -> nth_error (r_routes r) j = Some b -> ids a <> ids b.
+  Proof. exact (sv_pairwise_distinct cadd cfloor g traverse_fwd init_state search sim pick pick_perm Hsearch). Qed.
+
+  (* every pair was tested and found not similar *)
+  Theorem c13_sv_pairwise_dissimilar : forall k term s t r, run k term s t = Ok r ->
+    forall i j a b, i < j -> nth_error (r_routes r) i = Some a -> nth_error (r_routes r) j = Some b ->
+    sim (ids b) (ids a) = Ok false.
+  Proof. exact (sv_pairwise_dissimilar cadd cfloor g traverse_fwd init_state search sim pick pick_perm Hsearch). Qed.
+
+  (* the driver's loop needs no fuel beyond |queue|+1: it returns whenever the underlying searches do *)
+  Theorem c13_sv_terminates :
+    (forall e prev st, traverse_fwd e prev st <> OutOfFuel) -> init_state <> OutOfFuel ->
+    (forall a b, sim a b <> OutOfFuel) ->
+    forall k term s t, search Forward s t <> OutOfFuel -> search Reverse t s <> OutOfFuel -> run k term s t <> OutOfFuel.
+  Proof. exact (sv_terminates cadd cfloor g traverse_fwd init_state search sim pick pick_perm Hsearch). Qed.
+
+  (* an answerable query is not turned into an error by the driver *)
+  Theorem c13_sv_no_spurious_error :
+    (forall e prev st, is_Some (get_edge g e) -> exists x, traverse_fwd e prev st = Ok x) ->
+    (forall a b, known g a -> known g b -> exists x, sim a b = Ok x) ->
+    forall k term s t rf rr, s <> t -> search Forward s t = Ok rf -> search Reverse t s = Ok rr ->
+    exists r, run k term s t = Ok r.
+  Proof. exact (sv_no_spurious_error cadd cfloor g traverse_fwd init_state search sim pick pick_perm Hsearch). Qed.
+
+  (* AcceptAll returns at least as many routes as [sim], even if the two runs break priority ties differently *)
+  Theorem c13_accept_all_dominates : forall pick' : list (nat * C) -> option (nat * C * list (nat * C)),
+    (forall q v c q', pick' q = Some (v, c, q') -> Permutation q ((v, c) :: q')) -> (forall q, pick' q = None -> q = []) ->
+    forall k term s t ra rf,
+    sv_run cadd cfloor g traverse_fwd init_state search accept_all pick' k term s t = Ok ra ->
+    run k term s t = Ok rf -> length (r_routes rf) <= length (r_routes ra).
+  Proof.
+    intros pick' Hp Hn. exact (accept_all_dominates cadd cfloor g traverse_fwd init_state search sim pick' pick Hp Hn pick_perm Hsearch).
+  Qed.
+End C13.
+
+(* the cosine similarity over exact rationals is symmetric: "b was tested against a" covers "a against b" *)
+Theorem c13_similarity_symmetric : forall (f : simfn Q) (w : nat -> Q) a b,
+  test_similarity QN cos_ge_Q f (fun e => Ok (w e)) a b = test_similarity QN cos_ge_Q f (fun e => Ok (w e)) b a.
+Proof. exact test_similarity_sym. Qed.
+
+(* the underlying Dijkstra / A-star of Model/Search.v meets the hypothesis Hsearch (C01) and never expands its
+   destination *)
+Theorem c13_underlying : forall (C St : Type) clt cadd czero cfloor g frontier traverse estimate init_state terminate
+    (cle : C -> C -> Prop), PreOrder cle ->
+    (forall a b, clt a b = true -> cle a b) -> (forall a b, clt a b = true -> cle b a -> False) ->
+    (forall d e last (st : St) ac tc st' gc, traverse d e last st = Ok (ac, tc, st') -> cle gc (cadd gc (cfloor (cadd ac tc)))) ->
+    forall fuel d a b r,
+    Search.run_vertex_oriented clt cadd czero cfloor g frontier traverse estimate init_state terminate fuel d a (Some b) = Ok r ->
+    exists tree route, r_trees r = [tree] /\ r_routes r = [route] /\ TreeInv g d a tree
+                       /\ vertex_oriented_route a b tree = Ok route /\ leaf b tree.
+Proof. intros C St clt cadd czero cfloor g fr tv es ini te cle HP. exact (rvo_shape clt cadd czero cfloor g fr tv es ini te cle). Qed.
+
+(* ---- everything together for the executable model of the correspondence stream (exact rationals) ---- *)
+Import SR KR.
+Theorem c13_model : forall fuel (w : world QN) (q : kq QN) k s t (r : sresult Q Q),
+    kq_alg QN q = KSingleVia -> kq_source QN q = s -> kq_target QN q = Some t ->
+    ksp_query_k (kq_k QN q) (kq_qk QN q) = Ok k -> 1 <= k -> s <> t -> thr_nonneg (kq_sim QN q) ->
+    KR.run QN cos_ge_Q fuel w q = Ok r ->
+    routes_ok (graph_of QN w) s t k (map (@ids Q Q) (r_routes r))
+    /\ pairwise_dissimilar (kq_sim QN q) (fun e => nth e (w_cost QN w) 1%Q) (map (@ids Q Q) (r_routes r))
+    /\ exists rf route, KR.search QN fuel w q Forward s t = Ok rf /\ r_routes rf = [route]
+                        /\ nth_error (r_routes r) 0 = Some route.
+Proof. exact sv_model_ok. Qed.
+
+Theorem c13_model_dominates : forall fuel (w : world QN) (q : kq QN) k t (r ra : sresult Q Q),
+    kq_alg QN q = KSingleVia -> kq_target QN q = Some t -> ksp_query_k (kq_k QN q) (kq_qk QN q) = Ok k ->
+    KR.run QN cos_ge_Q fuel w q = Ok r -> run_with QN cos_ge_Q fuel w q (@SAcceptAll Q) = Ok ra ->
+    length (r_routes r) <= length (r_routes ra).
+Proof. exact sv_model_dominates. Qed.
+
+Theorem c13_model_no_spurious_error : forall fuel (w : world QN) (q : kq QN) k s t (rf rr : sresult Q Q),
+    kq_alg QN q = KSingleVia -> kq_source QN q = s -> kq_target QN q = Some t ->
+    ksp_query_k (kq_k QN q) (kq_qk QN q) = Ok k -> s <> t -> w_terr QN w = [] ->
+    KR.search QN fuel w q Forward s t = Ok rf -> KR.search QN fuel w q Reverse t s = Ok rr ->
+    exists r, KR.run QN cos_ge_Q fuel w q = Ok r.
+Proof. exact sv_model_no_spurious_error. Qed.
+
+(* ---- soundness of the checker (S line) that judges the IMPLEMENTATION's routes ---- *)
+Theorem c13_check_routes_sound : forall g s t k rs, check_routes g s t k rs = None -> routes_ok g s t k rs.
+Proof. exact check_routes_sound. Qed.
+Theorem c13_check_dissimilar_sound : forall f dist rs, check_dissimilar f dist rs = true -> pairwise_dissimilar f dist rs.
+Proof. exact check_dissimilar_sound. Qed.
+Theorem c13_check_potential_sound : forall g edges cost s pi,
+    gedges g = map (fun p => mkEdge (fst p) (snd p)) edges -> check_potential edges cost s pi = true ->
+    forall r t, walk g Forward s r t -> exists pt, nth t pi None = Some pt /\ (pt <= route_sum cost r)%Q.
+Proof. exact check_potential_sound. Qed.
+
+(* ---- Yen's algorithm: K = (k >= 2) is the known finding K_yens_k_ge_2 ---- *)
+Theorem c13_yens_outside_K : forall (C St : Type) clt cadd czero cfloor g (search : dir -> nat -> nat -> res (sresult C St))
+    spur_search sim fuel k term s t, ~ (2 <= k) ->
+    yens_run clt cadd czero cfloor g search spur_search sim (S fuel) k term s t =
+    (do sh <- search Forward s t;
+     match r_routes sh with
+     | [] => Ok (mkR [] [] 0)
+     | sp :: _ => Ok (mkR (r_trees sh) [sp] 1)
+     end).
+Proof. exact @yens_outside_K. Qed.
+
+Theorem c13_yens_k1 : forall (C St : Type) clt cadd czero cfloor g (search : dir -> nat -> nat -> res (sresult C St))
+    spur_search sim fuel term s t sh tree route,
+    search Forward s t = Ok sh -> r_trees sh = [tree] -> r_routes sh = [route] ->
+    yens_run clt cadd czero cfloor g search spur_search sim (S fuel) 1 term s t = Ok (mkR [tree] [route] 1).
+Proof. exact @yens_k1. Qed.
+
+(* witnesses inside K, on the faithful model *)
+Theorem c13_yens_K_witness_panic : forall fuel, is_panic (yens_on w_diamond 2 0 1 (S fuel)) = true.
+Proof. exact yens_K_witness_panic. Qed.
+Theorem c13_yens_K_witness_hang : forall fuel, yens_on w_diamond 2 0 3 fuel = OutOfFuel.
+Proof. exact yens_K_witness_hang. Qed.
+Theorem c13_yens_K_witness_hang3 : forall fuel, yens_on w_three 3 0 3 fuel = OutOfFuel.
+Proof. exact yens_K_witness_hang3. Qed.
+Theorem c13_yens_K_witness_duplicate :
+  route_ids (yens_on w_exits 3 0 4 10) = Some [[0;1;2;3]; [0;4]; [0;4]]
+  /\ route_ids (yens_on w_exits 2 0 4 10) = Some [[0;1;2;3]; [0;4]; [0;4]].
+Proof. exact yens_K_witness_duplicate. Qed.
+
+(* statement pins: editing a statement above without editing the pin breaks the build *)
+Check @c13_sv_count : forall (C St : Type) cadd cfloor g traverse_fwd init_state
+    (search : dir -> nat -> nat -> res (sresult C St)) sim pick,
+  (forall q v c q', pick q = Some (v, c, q') -> Permutation q ((v, c) :: q')) ->
+  (forall d a b r, search d a b = Ok r ->
+     exists tree route, r_trees r = [tree] /\ r_routes r = [route] /\ TreeInv g d a tree
+                        /\ vertex_oriented_route a b tree = Ok route) ->
+  forall k term s t r, 1 <= k ->
+  sv_run cadd cfloor g traverse_fwd init_state search sim pick k term s t = Ok r -> 1 <= length (r_routes r) <= k.
+Check c13_model : forall fuel (w : world QN) (q : kq QN) k s t (r : sresult Q Q),
+    kq_alg QN q = KSingleVia -> kq_source QN q = s -> kq_target QN q = Some t ->
+    ksp_query_k (kq_k QN q) (kq_qk QN q) = Ok k -> 1 <= k -> s <> t -> thr_nonneg (kq_sim QN q) ->
+    KR.run QN cos_ge_Q fuel w q = Ok r ->
+    routes_ok (graph_of QN w) s t k (map (@ids Q Q) (r_routes r))
+    /\ pairwise_dissimilar (kq_sim QN q) (fun e => nth e (w_cost QN w) 1%Q) (map (@ids Q Q) (r_routes r))
+    /\ exists rf route, KR.search QN fuel w q Forward s t = Ok rf /\ r_routes rf = [route]
+                        /\ nth_error (r_routes r) 0 = Some route.
+Check c13_model_dominates : forall fuel (w : world QN) (q : kq QN) k t (r ra : sresult Q Q),
+    kq_alg QN q = KSingleVia -> kq_target QN q = Some t -> ksp_query_k (kq_k QN q) (kq_qk QN q) = Ok k ->
+    KR.run QN cos_ge_Q fuel w q = Ok r -> run_with QN cos_ge_Q fuel w q (@SAcceptAll Q) = Ok ra ->
+    length (r_routes r) <= length (r_routes ra).
+
+(* non-vacuity: on the two-lane network (shortest 0>1>2>3, lanes 0>4>5>3 and 0>6>3), k = 3, EdgeIdCosine 0.9, the
+   hypotheses of c13_model hold and the run returns three routes; under threshold 0 it returns one, AcceptAll three *)
+Definition ex_w : world QN :=
+  mkW QN 7 [(0,1);(1,2);(2,3);(0,4);(4,5);(5,3);(0,6);(6,3)] [1; 3#2; 5#4; 2; 5#2; 9#4; 8; 19#2]%Q [] [] [] [] [] [] TUnlimited 0%Q.
+Definition ex_q (f : simfn Q) : kq QN := mkKQ QN KSingleVia (ADijkstra QN) None 3 QKAbsent KExact f 0 (Some 3).
+Example c13_nonvacuous :
+  (exists r, KR.run QN cos_ge_Q 300 ex_w (ex_q (SEdgeIdCosine (9#10)%Q)) = Ok r
+             /\ map (@ids Q Q) (r_routes r) = [[0;1;2]; [3;4;5]; [6;7]])
+  /\ (exists r, KR.run QN cos_ge_Q 300 ex_w (ex_q (SEdgeIdCosine 0%Q)) = Ok r /\ length (r_routes r) = 1)
+  /\ (exists r, KR.run QN cos_ge_Q 300 ex_w (ex_q SAcceptAll) = Ok r /\ length (r_routes r) = 3)
+  /\ thr_nonneg (SEdgeIdCosine (9#10)%Q).
+Proof.
+  split; [|split; [|split]].
+  - eexists. split; vm_compute; reflexivity.
+  - eexists. split; vm_compute; reflexivity.
+  - eexists. split; vm_compute; reflexivity.
+  - vm_compute. discriminate.
+Qed.
+
+Print Assumptions c13_sv_count.
+Print Assumptions c13_sv_first_is_best.
+Print Assumptions c13_sv_routes_valid.
+Print Assumptions c13_sv_routes_state.
+Print Assumptions c13_sv_loop_free.
+Print Assumptions c13_sv_loop_free_full.
+Print Assumptions c13_sv_pairwise_distinct.
+Print Assumptions c13_sv_pairwise_dissimilar.
+Print Assumptions c13_sv_terminates.
+Print Assumptions c13_sv_no_spurious_error.
+Print Assumptions c13_accept_all_dominates.
+Print Assumptions c13_similarity_symmetric.
+Print Assumptions c13_underlying.
+Print Assumptions c13_model.
+Print Assumptions c13_model_dominates.
+Print Assumptions c13_model_no_spurious_error.
+Print Assumptions c13_check_routes_sound.
+Print Assumptions c13_check_dissimilar_sound.
+Print Assumptions c13_check_potential_sound.
+Print Assumptions c13_yens_outside_K.
+Print Assumptions c13_yens_k1.
+Print Assumptions c13_yens_K_witness_panic.
+Print Assumptions c13_yens_K_witness_hang.
+Print Assumptions c13_yens_K_witness_hang3.
+Print Assumptions c13_yens_K_witness_duplicate.
+Print Assumptions c13_nonvacuous.
